@@ -195,3 +195,13 @@ def pyteal_crosscheck() -> Dict[str, Any]:
         if name not in seen:
             out["not_in_pyteal"].append(name)
     return out
+
+
+ASSET_HOLDING_FIELDS = ["AssetBalance", "AssetFrozen"]
+ASSET_PARAMS_FIELDS = ["AssetTotal", "AssetDecimals", "AssetDefaultFrozen", "AssetUnitName", "AssetName", "AssetURL", "AssetMetadataHash",
+                       "AssetManager", "AssetReserve", "AssetFreeze", "AssetClawback", "AssetCreator"]
+APP_PARAMS_FIELDS = ["AppApprovalProgram", "AppClearStateProgram", "AppGlobalNumUint", "AppGlobalNumByteSlice", "AppLocalNumUint",
+                     "AppLocalNumByteSlice", "AppExtraProgramPages", "AppCreator", "AppAddress"]
+ACCT_PARAMS_FIELDS = ["AcctBalance", "AcctMinBalance", "AcctAuthAddr", "AcctTotalNumUint", "AcctTotalNumByteSlice", "AcctTotalExtraAppPages",
+                      "AcctTotalAppsCreated", "AcctTotalAppsOptedIn", "AcctTotalAssetsCreated", "AcctTotalAssets", "AcctTotalBoxes", "AcctTotalBoxBytes"]
+ARRAY_TXN_FIELDS = {"ApplicationArgs", "Accounts", "Assets", "Applications", "Logs", "ApprovalProgramPages", "ClearStateProgramPages"}
